@@ -111,9 +111,12 @@ def h_tamper(ctx, kind, how, lmax):
     ct = _enc(c, kind, p, key)
     n = H.length_of(ct)
     key2, kind2 = key, kind
-    if how == "flip":
+    if how.startswith("flip"):
         i = ctx.int("pos", 0)
         ctx.assume(i < n)
+        if how.startswith("flip-tag"):
+            k = int(how[8:])                      # flip exactly the k-th byte of the 10-byte tag
+            ctx.assume(i == n - 10 + k if not H.sym(ctx) else (i == n - 10 + k))
         d = ctx.int("delta", 1, 255)
         if H.sym(ctx):
             old = ct[i]
@@ -193,7 +196,7 @@ def cases(tier):
         cs.append(dict(name="roundtrip[%s]" % k, fn=h_roundtrip, args=(k, lmax)))
         cs.append(dict(name="layout[%s]" % k, fn=h_layout, args=(k, lmax)))
         cs.append(dict(name="ref->lib[%s]" % k, fn=h_ref_to_lib, args=(k, lmax)))
-        for how in ("flip", "truncate", "wrong-key", "wrong-kind"):
+        for how in ("flip", "truncate", "wrong-key", "wrong-kind") + tuple("flip-tag%d" % k for k in range(10)):
             cs.append(dict(name="tamper[%s,%s]" % (how, k), fn=h_tamper, args=(k, how, lmax), keep_samples=12))
         if tier != "quick":
             cs.append(dict(name="sweep[%s]" % k, fn=h_concrete_lengths, args=(k,)))
